@@ -1075,7 +1075,8 @@ func (r *Raft) sendAppendEntries(id string, address string, numResponses *int, r
 
 	// If the majority of cluster acknowledges the request, this node is a legitimate leader.
 	// Try to apply pending read-only operations.
-	if numResponses != nil {
+	// Only voting members count towards the quorum that confirms leadership.
+	if numResponses != nil && r.isVoter(id) {
 		*numResponses += 1
 		if r.hasQuorum(*numResponses) {
 			r.tryApplyReadOnlyOperations(round)
